@@ -108,3 +108,67 @@ func VerifC15DisconnectInterval() {
 		vReach("nonzero")
 	}
 }
+
+// VerifC15Generations: a session that has been resumed (once or twice, by takeover or after a hang-up) and is
+// then discarded - by a Clean Start 1 connection, by its expiry at housekeeping, or at disconnect when the
+// last connection asked for no expiry - leaves nothing behind: no subscription in the index, no in-flight
+// message, and a later connection with the same client identifier receives nothing.
+func VerifC15Generations() {
+	caps := NewDefaultServerCapabilities()
+	s, _ := vNewServer(&Options{Capabilities: caps})
+	ver := byte(vConcrete(int(vByteIn("\x04\x05")), 4, 5))
+	persistent := vConnOpts{ver: ver, id: "c1", clean: false, keepalive: 60, seiSet: ver == 5, sei: 100, rm: 5}
+	c := vDial(s, persistent)
+	vSend(c, vSubscribeBytes(1, "t", 1, ver))
+	s.publishToSubscribers(packets.Packet{FixedHeader: packets.FixedHeader{Type: packets.Publish, Qos: 1}, TopicName: "t", Payload: []byte{1}, Origin: "pub"})
+	vDrain()
+	now := vNow()
+	resumes := 1 + vChoose(2)
+	for i := 0; i < resumes; i++ {
+		if vBool() {
+			vHangup(c)
+		}
+		c = vDial(s, persistent)
+	}
+	// the session is discarded
+	switch vChoose(3) {
+	case 0: // a Clean Start 1 connection, which then leaves
+		if vBool() {
+			vHangup(c)
+		}
+		c = vDial(s, vConnOpts{ver: ver, id: "c1", clean: true, keepalive: 60, rm: 5})
+		vHangup(c)
+	case 1: // the connection ends and the session expires (MQTT 3: after the server's maximum)
+		vHangup(c)
+		if ver == 5 {
+			s.clearExpiredClients(now + 100000)
+		} else {
+			s.clearExpiredClients(now + int64(caps.MaximumSessionExpiryInterval) + 100000)
+		}
+	case 2: // MQTT 5: the client disconnects asking for no session expiry; MQTT 3: expiry by housekeeping
+		if ver == 5 {
+			vSend(c, []byte{0xE0, 7, 0x00, 5, 0x11, 0, 0, 0, 0})
+		} else {
+			vHangup(c)
+			s.clearExpiredClients(now + int64(caps.MaximumSessionExpiryInterval) + 100000)
+		}
+	}
+	vDrain()
+	subs := s.Topics.Subscribers("t")
+	_, ghost := subs.Subscriptions["c1"]
+	vAssert("discarded-session-leaves-no-subscription-in-the-index", !ghost)
+	if old, ok := s.Clients.Get("c1"); ok {
+		vAssert("discarded-session-leaves-no-inflight-message", old.State.Inflight.Len() == 0 && old.State.Subscriptions.Len() == 0)
+	}
+	// a later connection with the same identifier starts from nothing
+	c3 := vDial(s, persistent)
+	w := vParseWire(vConnWritten(c3), ver)
+	vAssert("later-connection-gets-connack", len(w.Pkts) >= 1 && w.Pkts[0].Type == packets.Connack)
+	if len(w.Pkts) >= 1 {
+		vAssert("later-connection-has-no-session-present", !w.Pkts[0].Session)
+	}
+	s.publishToSubscribers(packets.Packet{FixedHeader: packets.FixedHeader{Type: packets.Publish, Qos: 0}, TopicName: "t", Payload: []byte{2}, Origin: "pub"})
+	vDrain()
+	vAssert("later-connection-receives-nothing-through-the-discarded-session", vCountPublishes(c3, ver, "t") == 0)
+	vReach("end")
+}
